@@ -69,7 +69,7 @@ func (c17) Describe() runner.Description {
 		Assumptions: []string{"the pending pool is memory-only by design: a restart empties it (model follows)", "the per-block limit (200) is the property text's 'per-block limit'"},
 		Real:        []string{"service/transaction_pool.go", "service/simple_container.go (gmap list map, ring ageing)", "goleveldb executed store over simulated storage", "types transaction codec (executed records)"},
 		Stub:        []string{"chain (the harness plays it: builds headers/receipts)", "ConsensusHelper", "network"},
-		FaultKinds:  []string{"restart", "ticker_fire", "reorg_unmark", "duplicate_add", "task_switch"},
+		FaultKinds:  []string{"restart", "ticker_fire", "reorg_unmark", "duplicate_add", "task_switch", "executed_and_evicted_same_tx"},
 	}
 }
 
@@ -127,7 +127,7 @@ func (c17) Gen(seed uint64, tier string) json.RawMessage {
 			p.Ops = append(p.Ops, c17Op{K: "pack", S: r.Intn(3)})
 		case x < 65:
 			blk++
-			p.Ops = append(p.Ops, c17Op{K: "mark", B: blk, N: r.Range(0, 6), E: r.Intn(2)})
+			p.Ops = append(p.Ops, c17Op{K: "mark", B: blk, N: r.Range(0, 6), E: r.Intn(3)})
 		case x < 77:
 			if blk > 0 {
 				p.Ops = append(p.Ops, c17Op{K: "unmark", B: r.Range(1, blk)})
@@ -367,6 +367,12 @@ func (c17) Exec(raw json.RawMessage, st *simrt.Stats, log *simrt.Log) *simrt.Vio
 				nexec = len(m.pending)
 			}
 			nev := op.E
+			overlap := false
+			if nev == 2 {
+				// the representation of a failed execution before Proposal018: the transaction is in the block's
+				// transaction list (with a receipt) AND in its evicted list
+				nev, overlap = 0, nexec > 0
+			}
 			if nexec+nev > len(m.pending) {
 				nev = len(m.pending) - nexec
 			}
@@ -385,6 +391,10 @@ func (c17) Exec(raw json.RawMessage, st *simrt.Stats, log *simrt.Log) *simrt.Vio
 			for _, h := range m.pending[nexec : nexec+nev] {
 				evicted = append(evicted, h)
 			}
+			if overlap {
+				evicted = append(evicted, btx[0].Hash)
+				st.Fault("executed_and_evicted_same_tx")
+			}
 			hdr.EvictedTxs = evicted
 			pool.MarkExecuted(hdr, rcs, btx, evicted)
 			for _, t := range btx {
@@ -394,6 +404,7 @@ func (c17) Exec(raw json.RawMessage, st *simrt.Stats, log *simrt.Log) *simrt.Vio
 			for _, h := range evicted {
 				m.removePending(h)
 			}
+			_ = overlap
 			blocks[op.B] = &types.Block{Header: hdr, Transactions: btx}
 			hasMark = true
 		case "unmark":
